@@ -62,6 +62,8 @@ func setup() {
 	mk("s", fiber.Config{ReadBufferSize: 512, BodyLimit: 64}, false)
 	mk("g", fiber.Config{GETOnly: true}, false)
 	mk("c", fiber.Config{}, true)
+	mk("p", fiber.Config{EnableSplittingOnParsers: true}, false)
+	setupPdef()
 }
 
 var customMethods = []string{"GET", "BREW", "POST", "PROPFIND"}
@@ -479,6 +481,9 @@ func runCase(w *gen.Writer, id, kind string, in []string) {
 		}
 	}()
 	need := func(n int) bool { return len(in) >= n }
+	if runCase2(w, id, kind, in) {
+		return
+	}
 	switch kind {
 	case "emit":
 		if !need(4) {
